@@ -43,14 +43,27 @@ def gen_idman_ops(rng: random.Random, n: int) -> list[tuple]:
     return ops
 
 
-def impl_idman(ops, existing=()) -> list[int]:
+def impl_idman(ops, existing=(), problems=None) -> list[int]:
+    """Results of the operations on a real IDMan.  `problems` collects direct breaches seen on the way: an ID handed
+    out that is not positive or was in use, and a search hint that skips a free positive ID (the invariant under
+    which the hint is unobservable, SM/IdManSpecProofs.v)."""
     from srctools.vmf import IDMan
     m = IDMan(existing)
     out = []
-    for op in ops:
+    for n_op, op in enumerate(ops):
         k = op[0]
+        if problems is not None:
+            hint = getattr(m, 'search_pos', 1)
+            if hint < 1 or any(j not in m for j in range(1, min(hint, 64))):
+                problems.append(('idman-hint-skips-free-id', n_op, hint))
         if k == 'Get':
-            out.append(m.get_id(op[1]))
+            before = set(m)
+            r = m.get_id(op[1])
+            out.append(r)
+            if problems is not None and r <= 0:
+                problems.append(('idman-nonpositive-id', n_op, r))
+            if problems is not None and r in before:
+                problems.append(('idman-id-in-use', n_op, r))
         elif k == 'Discard':
             m.discard(op[1]); out.append(-2)
         elif k == 'Remove':
@@ -64,7 +77,6 @@ def impl_idman(ops, existing=()) -> list[int]:
             out.append(1 if op[1] in m else 0)
         elif k == 'Len':
             out.append(len(m))
-    out.append(m.search_pos)
     return out
 
 
@@ -75,6 +87,7 @@ def coq_op(op) -> str:
 def corr_idman(ck: Ck) -> None:
     n = ck.budget(600, 6000)
     cases = []
+    reported: dict[str, int] = {}
     corpus = [[('Get', -1), ('Discard', 1), ('Get', -1), ('Discard', 1), ('Get', -1)],
               [('Get', 5), ('Get', 5), ('Discard', 0), ('Get', -1), ('Get', -1)],
               [('Get', 2), ('Get', 1), ('Get', -1), ('Remove', 9), ('Discard', 2), ('Get', 0), ('Len',)]]
@@ -83,8 +96,15 @@ def corr_idman(ck: Ck) -> None:
         # IDMan(existing): any starting set (also non-positive members); then a sweep of __contains__ over the range
         existing = [] if i < len(corpus) or ck.rng.random() < 0.5 else [ck.rng.randint(-2, 9) for _ in range(ck.rng.choice([1, 3, 6]))]
         ops = list(ops) + [('Contains', x) for x in range(-2, 14)] + [('Len',)]
-        exp = impl_idman(ops, existing)
+        problems: list = []
+        exp = impl_idman(ops, existing, problems)
         cases.append((ops, exp, existing))
+        for key, n_op, val in problems[:1]:
+            if key not in reported or len(ops) < reported[key]:
+                reported[key] = len(ops)
+                ck.violation(key, f'IDMan: {key} (value {val}) at operation {n_op}',
+                             {'existing': existing, 'ops': [coq_op(o) for o in ops[:n_op + 1]], 'results': exp[:n_op + 1],
+                              'how': 'checks.c08.impl_idman(ops, existing)'})
         ck.hist('idman_existing', len(existing))
         ck.count('idman_sequences')
         ck.hist('idman_len', len(ops) // 10 * 10)
@@ -92,12 +112,12 @@ def corr_idman(ck: Ck) -> None:
             ck.hist('idman_ops', op[0])
         if len(set(exp)) > 3:
             ck.seen(('idman', tuple(ops)))
-    ck.sample({'idman_ops': [coq_op(o) for o in cases[3][0]], 'impl_results_then_search_pos': cases[3][1]})
+    ck.sample({'idman_ops': [coq_op(o) for o in cases[3][0]], 'impl_results': cases[3][1]})
     bad: list[int] = []
     for lo in range(0, len(cases), 500):
         part = cases[lo:lo + 500]
         lit = coq_list(f'(({coq_Z_list(ex)}, {coq_list(coq_op(o) for o in ops)}), {coq_Z_list(exp)})' for ops, exp, ex in part)
-        vals = ck.coq_eval(IMPORTS, [f'bad_idx (fun c : (list Z * list op) * list Z => zl_eqb (run idman_lower_guard (init_from (fst (fst c))) (snd (fst c))) (snd c)) 0 {lit}'],
+        vals = ck.coq_eval(IMPORTS, [f'bad_idx (fun c : (list Z * list op) * list Z => zl_eqb (run_res idman_lower_guard (init_from (fst (fst c))) (snd (fst c))) (snd c)) 0 {lit}'],
                            name='idman', preamble=PRE)
         if vals is None:
             ck.obligation('correspondence:idman', False, 'model could not be evaluated')
@@ -114,7 +134,7 @@ def corr_idman(ck: Ck) -> None:
 
 
 # ------------------------------------------------------------------------------------------------ fixups
-def corr_fixups(ck: Ck, require_positive: bool) -> None:
+def corr_fixups(ck: Ck, require_positive: bool, defer: bool = True) -> None:
     from srctools.vmf import EntityFixup, FixupValue
     n = ck.budget(300, 3000)
     cases = []
@@ -139,12 +159,12 @@ def corr_fixups(ck: Ck, require_positive: bool) -> None:
             ck.violation(key, 'EntityFixup holds a duplicate or non-positive replaceNN index',
                          {'init': init, 'ops': ops, 'result': got})
     ck.sample({'fixup_init(var,index)': cases[-1][0], 'ops': cases[-1][1], 'impl_result_sorted': cases[-1][2]})
-    rp = 'true' if require_positive else 'false'
+    rp = ('true' if require_positive else 'false') + (' true' if defer else ' false')
     pre = PRE + '''
 Fixpoint ins (p : Z * Z) (l : list (Z * Z)) := match l with [] => [p] | q :: r => if (fst p <? fst q) then p :: l else q :: ins p r end.
 Definition srt (l : list (Z * Z)) := fold_right ins [] l.
-Definition fx_run (rp : bool) (c : list (Z * Z) * list (bool * Z)) : list (Z * Z) :=
-  srt (fold_left (fun (f : fixups) (o : bool * Z) => if fst o then fx_set (snd o) f else fx_del (snd o) f) (snd c) (fx_init rp (fst c))).
+Definition fx_run (rp df : bool) (c : list (Z * Z) * list (bool * Z)) : list (Z * Z) :=
+  srt (fold_left (fun (f : fixups) (o : bool * Z) => if fst o then fx_set (snd o) f else fx_del (snd o) f) (snd c) (fx_init rp df (fst c))).
 Fixpoint pl_eqb (a b : list (Z * Z)) : bool := match a, b with [], [] => true | (x, y) :: a', (u, v) :: b' => Z.eqb x u && Z.eqb y v && pl_eqb a' b' | _, _ => false end.
 '''
     def pairs(l):
@@ -251,10 +271,14 @@ def run_history(hist: list[tuple], record_release=None):
                 elif kind == 'vis':
                     o = VisGroup(vmf, 'v', desired)
                     vmf.vis_tree.append(o)
+                elif kind == 'vischild':    # nested under the most recent visgroup (or top level when there is none)
+                    o = VisGroup(vmf, 'c', desired)
+                    parents = [x[1] for x in objs if x[0] in ('vis', 'vischild')]
+                    (parents[-1].child_groups if parents else vmf.vis_tree).append(o)
                 objs.append([kind, o, True])
             elif op == 'copy':
                 k = ev[1] % len(objs) if objs else None
-                if k is None or objs[k][1] is None or objs[k][0] in ('group', 'vis'):
+                if k is None or objs[k][1] is None or objs[k][0] in ('group', 'vis', 'vischild'):
                     continue
                 kind, src, _ = objs[k]
                 if kind in ('ent', 'brushent', 'node'):
@@ -266,9 +290,19 @@ def run_history(hist: list[tuple], record_release=None):
                 objs.append([kind, o, True])
             elif op == 'xcopy':     # copy into the other map
                 k = ev[1] % len(objs) if objs else None
-                if k is None or objs[k][1] is None or objs[k][0] in ('group', 'vis', 'node'):
+                if k is None or objs[k][1] is None or objs[k][0] in ('vischild', 'node'):
                     continue
                 kind, src, _ = objs[k]
+                if kind == 'group':
+                    o = src.copy(vmf2)
+                    vmf2.groups[id(o)] = o
+                    del o
+                    continue
+                if kind == 'vis':
+                    o = src.copy(vmf2, {})
+                    vmf2.vis_tree.append(o)
+                    del o
+                    continue
                 o = src.copy(vmf_file=vmf2)
                 if kind in ('ent', 'brushent'):
                     vmf2.add_ent(o)
@@ -283,13 +317,13 @@ def run_history(hist: list[tuple], record_release=None):
                 del inst
             elif op == 'remove':
                 k = ev[1] % len(objs) if objs else None
-                if k is None or objs[k][1] is None or not objs[k][2] or objs[k][0] in ('group', 'vis'):
+                if k is None or objs[k][1] is None or not objs[k][2] or objs[k][0] in ('group', 'vis', 'vischild'):
                     continue
                 objs[k][1].remove()
                 objs[k][2] = False
             elif op == 'readd':
                 k = ev[1] % len(objs) if objs else None
-                if k is None or objs[k][1] is None or objs[k][2] or objs[k][0] in ('group', 'vis'):
+                if k is None or objs[k][1] is None or objs[k][2] or objs[k][0] in ('group', 'vis', 'vischild'):
                     continue
                 if objs[k][0] in ('ent', 'brushent', 'node'):
                     vmf.add_ent(objs[k][1])
@@ -356,6 +390,8 @@ CORPUS_HIST = [
     [('create', 'brushent', -1), ('xcopy', 0), ('create', 'solid', -1), ('xcopy', 1), ('xcopy', 0)],
     [('create', 'brushent', 2), ('create', 'solid', 1), ('create', 'vis', 1), ('create', 'node', 1), ('collapse', 0, 1), ('collapse', 1, 0),
      ('create', 'solid', -1), ('collapse', 2, 1)],
+    [('create', 'vis', 1), ('create', 'vischild', 1), ('create', 'vischild', 2), ('create', 'group', 1), ('xcopy', 0), ('xcopy', 3), ('xcopy', 0),
+     ('collapse', 0, 1)],
 ]
 
 
@@ -407,8 +443,8 @@ def search_lifecycle(ck: Ck) -> None:
         if i < len(CORPUS_HIST):
             hist = CORPUS_HIST[i]
         else:
-            kinds = ck.rng.choice([['ent'], ['solid'], ['ent', 'brushent', 'solid'], ['node', 'ent'], ['group', 'vis', 'ent'],
-                                   ['ent', 'solid', 'brushent', 'node', 'group', 'vis']])
+            kinds = ck.rng.choice([['ent'], ['solid'], ['ent', 'brushent', 'solid'], ['node', 'ent'], ['group', 'vis', 'vischild', 'ent'],
+                                   ['ent', 'solid', 'brushent', 'node', 'group', 'vis', 'vischild']])
             hist = gen_history(ck.rng, ck.rng.choice([4, 8, 16, 30]), kinds)
         ck.count('lifecycle_histories')
         for e in hist:
@@ -1069,6 +1105,7 @@ def run(ck: Ck) -> None:
             'every_id_store_is_a_get_id_result': 'all_id_stores_from_get_id',
             'fixup_constructor_tests_positivity': 'fixup_init_requires_positive',
             'fixup_set_searches_from_1': 'Z.eqb fixup_set_start 1',
+            'fixup_constructor_reinserts_refused_values_after_the_first_pass': 'fixup_init_defers_reinsertion',
             'idman_hint_lowered_only_by_positive_ids': 'idman_lower_guard',
             'each_class_uses_the_manager_of_its_kind': 'class_kind_consistent',
             'entity_copies_allocate_in_destination_map': 'copy_to_dest KEnt',
@@ -1080,7 +1117,7 @@ def run(ck: Ck) -> None:
             'no_unclassified_release_site': 'forallb (fun x : kind * site * String.string => match snd (fst x) with SOther => false | _ => true end) release_sites',
         })
         corr_idman(ck)
-        corr_fixups(ck, bool(side.get('fixup_init_requires_positive')))
+        corr_fixups(ck, bool(side.get('fixup_init_requires_positive')), bool(side.get('fixup_init_defers', True)))
         ror = any(r[0] == 'KEnt' and r[1] != 'SDel' for r in side.get('releases', []))
         corr_lifecycle(ck, ror)
         corr_world(ck)
@@ -1106,11 +1143,15 @@ def run(ck: Ck) -> None:
     if has('fixup-index'):
         ck.explain('instance:fixup_constructor_tests_positivity')
         ck.explain('instance:fixup_set_searches_from_1')
+        ck.explain('instance:fixup_constructor_reinserts')
         ck.explain('correspondence:fixup')
     if has('node-id-'):
         ck.explain('instance:node_id_not_released_on_remove')
         ck.explain('correspondence:node')
     if has('-id-nonpositive'):
+        ck.explain('instance:idman_hint_lowered_only_by_positive_ids')
+        ck.explain('correspondence:idman')
+    if has('idman-'):
         ck.explain('instance:idman_hint_lowered_only_by_positive_ids')
         ck.explain('correspondence:idman')
     if has('parse-'):
